@@ -16,6 +16,30 @@ CLAIMED = {
     "C01": ("round-trip law monitor over generated protocol values (encode/size/decode equality), reference encoder run alongside",
             EXPL + "Systematic product of type x variant x vector-length class x policy mask with boundary-biased field values.",
             "Equality is the types' own PartialEq with the panic reason masked. Six value shapes the wire format cannot express are listed as known findings.", "4/C01"),
+    "C02": ("fuzz-style mutation workload on the real decoders under catch_unwind; oracle = no panic + size()==consumed + decode(encode(v))==v",
+            EXPL + "16 decoder targets x 14 word-replacement values x truncations/bit flips/padding/splices + random strings.",
+            "Abort-class failures (allocation failure, stack overflow) would end the monitor process and are reported as inconclusive, not as a violation; memory reservations are observed, not judged.", "4/C02"),
+    "C03": ("reference-model monitor: id vs sha256(chain_id_be || reference encoding of the harness-normalised tx) + single-field lens table (id changes iff field not malleable) + cached-vs-fresh id",
+            EXPL + "Free-form transactions of all six kinds, every field lens applied to every transaction.",
+            "Malleable-field list transcribed from the property statement; reference encoder refmodel::canon; sha2.", "4/C03"),
+    "C04": ("reference layout walker (hand-written tx format) compared with every offset API, with and without cached metadata, plus decode-at-offset on the library's encoding",
+            EXPL + "Free-form transactions of all kinds with 0..8 inputs/outputs/witnesses in mixed layouts.",
+            "Trusts the reference layout walker refmodel::canon (which agrees byte-for-byte with to_bytes on every generated transaction, checked per case).", "4/C04"),
+    "C06": ("round-trip law monitor over three serde back-ends (JSON, postcard, bincode) + upgrade checksum / UpgradeMetadata reproduction checks",
+            EXPL + "All protocol types, 64 policy masks in both serde layouts, every consensus-parameter / gas-table version built explicitly with boundary values.",
+            "sha2 and the serde back-ends themselves are trusted.", "4/C06"),
+    "C12": ("history monitor: root after every insert/overwrite/delete (storage-backed and in-memory trees) and from_set/root_from_set/nodes_from_set vs an independent compact-SMT recursion over the model map",
+            EXPL + "Adversarially clustered key universes (shared prefixes 0..255 bits, last-bit neighbours, all-zero/all-one keys), histories of 1..80 operations.",
+            "Trusts sha2 and the harness transcription of the compact sparse-Merkle definition quoted in the property.", "4/C12"),
+    "C13": ("crash-point monitor: at every position of a history the node storage is cloned and a tree re-loaded from it, then driven in lock-step with the original and the reference; node-deletion faults; reachability walk over stored nodes",
+            EXPL + "Reload at every history position, empty-root loads, nodes_from_set loads, single-node deletion faults.",
+            "A tree on faulty storage may fail or panic; only a wrong Ok (root/proof disagreeing with the reference) is a violation.", "4/C13"),
+    "C14": ("reference-verifier agreement monitor: proof kind vs model membership, generated proofs verify, ~30 structured proof mutations judged by an independent compact-SMT recomputation",
+            EXPL + "Trees reached by clustered-key histories, queries on present keys, late-bit neighbours and absent keys, mutation catalogue.",
+            "Trusts sha2 and the harness transcription of the compact sparse-Merkle definition.", "4/C14"),
+    "C30": ("recording storage wrapper + step bus: every contract-table access attributed to the executing instruction must target a contract input; predicate runs over a recording storage must not touch contract tables",
+            EXPL + "Generated scripts/contracts calling/transferring/querying listed, unlisted-but-deployed and unknown contract ids.",
+            BUS + " One known finding (CALL reads the target's code size before the input check) is listed in known_findings.jsonl.", "4/C30"),
     "C07": ("round-trip monitor: compress -> postcard -> decompress against a harness registry context, id equality + field-wise comparison driven by a literal skip table",
             EXPL + "Sequences of transactions sharing one registry context (key reuse, wrap-around, eviction).",
             "Trusts UniqueIdentifier::id (judged by C03) and the harness-side context implementation; Coin/Message/Mint decompression is the context's job by design.", "4/C07"),
